@@ -42,7 +42,8 @@ static Result exec_line(World<Mesh> &w, const std::vector<std::string> &toks) {
         res.echo = echo(name, e);
         bool ok = true; std::vector<HalfEdgeHandle> hs;
         for (auto h : l) { ok = ok && live_he(m, (int)h); hs.push_back(HalfEdgeHandle((int)h)); }
-        if (isset) ok = ok && live_f(m, (int)c);
+        if (isset) ok = ok && live_f(m, (int)c) && !hs.empty();
+        else ok = ok && (c != 0 || !hs.empty());   // an unchecked face without halfedges is outside the documented contract
         if (!ok) { res.rejected = true; return res; }
         if (isset) { m.set_face(FaceHandle((int)c), hs); return res; }
         auto f = m.add_face(hs, c != 0); res.has = f.is_valid(); res.r = f.idx(); return res;
